@@ -68,14 +68,17 @@ def enough(tool, c, th):
     return c['sr1'] >= th['min_split_read1'] and c['sr2'] >= th['min_split_read2'] and lv[c['conf']] >= lv[th['min_confidence']]
 
 
-def check_c15(tier):
-    rep = report.Report('C15', tier)
+def check_c15(tier, rep=None, only_complete=False):
+    rep = rep or report.Report('C15', tier)
+    rule_before = rep.cov['rule']
     rep.cov['rule'] = ("random annotations with 2-3 genes (both strands, multi-exon, isoforms) x ordered gene pairs x breakpoints at exon "
                        "ends/starts, inside exons and in introns x evidence values around each tool's thresholds x unknown gene ids; the "
                        "real command lines parseSTARFusion / parseFusionCatcher / parseArriba are run, the emitted GVF is read, and "
                        "callVariant is run on the STAR-Fusion GVF; TLC checks one record per eligible transcript pair at the spec's "
                        "positions, skipping rules, and that every fusion peptide is a digestion product of the spec's fused sequence; "
                        "non-trivial = record emitted")
+    if only_complete:
+        rep.cov['rule'] = rule_before + ' | fusion backbones: the C15 campaign, clause fusion_peptides_complete (coding donors, breakpoint after the start codon)'
     work = env.scratch('c15_')
     r = env.rng('c15')
     n = 10 if tier == 'quick' else 200
@@ -197,7 +200,10 @@ def check_c15(tier):
                                       enough=enough(tool, c, m['th']), known=c['known'],
                                       records=[dict(d=dids.index(q['dtx']) + 1, a=aids.index(q['atx']) + 1, pos=q['pos'], accpos=q['accpos'])
                                                for q in mine if q['dtx'] in dids and q['atx'] in aids],
-                                      peps=peps, dinfo=dinfo, cfg=cvgen.spec_cfg(CFG)))
+                                      peps=peps, dinfo=dinfo, cfg=cvgen.spec_cfg(CFG),
+                                      cvran=bool(tool == 'star' and cv is not None and cv['ok']),
+                                      allobs=[list(sq) for _, sq in cv['fasta']] if (tool == 'star' and cv is not None and cv['ok']) else [],
+                                      proteome=cvgen.proteome_record(m['ref'])))
                 info.append((key0, tool, dict(ctx0, row=dict(donor=c['gdid'], acceptor=c['gaid'], lb=c['lb'], rb=c['rb'],
                                                             est_j=c['est_j'], common=c['common'], unique=c['unique'], sr1=c['sr1'],
                                                             sr2=c['sr2'], conf=c['conf'])), bool(mine), len(peps)))
@@ -216,10 +222,14 @@ def check_c15(tier):
         if 'done' not in vs:
             rep.machinery(f"no verdict for fusion case {key0}")
         bad = sorted(v for v in vs if v != 'done')
+        # the completeness clause decides C01 (fusion backbones) and is reported by ./bin/check C01
+        bad = [v for v in bad if (v == 'fusion_peptides_complete') == only_complete]
         if bad:
             rep.violation(f"fusion:{tool}:{key0}:{env.canon_hash(ctx['row'])}:{','.join(bad)}",
                           f"{tool} fusion row {ctx['row']} violates {bad}", ctx)
     rep.part('fusion', peptides_checked=sum(x[4] for x in info), rows=len(info))
+    if only_complete:
+        return None
     if info:
         rep.sample(dict(tool=info[0][1], row=info[0][2]['row'], record_emitted=info[0][3]))
     return rep.finish()
